@@ -217,9 +217,9 @@ type World struct {
 	hdr     []*store.TxHeader // chain headers (1-based)
 	alh     []H
 	inner   []H
-	leaf    []H               // alh the tree holds at position k
-	leafHdr []*store.TxHeader // header whose Alh is leaf[k]
-	ents    [][]EntRec        // real worlds (and rewritten transactions of synthetic ones)
+	leaf    []H                    // alh the tree holds at position k
+	leafHdr []*store.TxHeader      // header whose Alh is leaf[k]
+	ents    [][]EntRec             // real worlds (and rewritten transactions of synthetic ones)
 	dual    [][]*store.DualProof   // [s][t], s <= t
 	dualL   [][]*store.DualProof   // same, but proving the transaction the TREE holds at s (only where it differs)
 	v2      [][]*store.DualProofV2 // only when every BlTxID == ID-1
@@ -342,6 +342,12 @@ var forgedVal = []byte("forged") // value the adversary writes into a rewritten 
 // mix: chain headers follow base (content of base, PrevAlh/BlRoot recomputed); tree leaves k..m are taken from alt
 // (k > m: none). rewrite >= 1: transaction `rewrite` gets its first entry's value replaced (Eh recomputed).
 func mix(name string, base *World, alt *World, k, m, rewrite int) *World {
+	return mixFrom(name, base, alt, k, m, rewrite, 0)
+}
+
+// mixFrom: as mix, but headers with id < from are linked to the world's own (unswapped) leaves: the adversary starts
+// serving the swapped tree only from transaction `from` on, so every earlier state is also a state of base.
+func mixFrom(name string, base *World, alt *World, k, m, rewrite, from int) *World {
 	n := base.n
 	w := &World{name: name, n: n}
 	w.hdr = make([]*store.TxHeader, n+1)
@@ -365,7 +371,11 @@ func mix(name string, base *World, alt *World, k, m, rewrite int) *World {
 			w.ents[id] = es
 		}
 		h.PrevAlh = prev
-		h.BlRoot = leavesRoot(w.leaf, int(h.BlTxID))
+		if id < from {
+			h.BlRoot = leavesRoot(w.alh, int(h.BlTxID))
+		} else {
+			h.BlRoot = leavesRoot(w.leaf, int(h.BlTxID))
+		}
 		w.hdr[id] = &h
 		w.inner[id] = innerHash(&h)
 		w.alh[id] = h.Alh()
